@@ -120,7 +120,7 @@ def examine(ctx, ti, chains, order, out):
         bad("create_topology_dataframe:rank", "rows not ranked by score: %r" % sc, rep)
     # archives
     arch_obs = []
-    for k in (1, 2, "all"):
+    for k in sorted({("all" if x.split("/")[1] == "all" else int(x.split("/")[1])) for x in out if x.startswith("topo/")}, key=str):
         o = out["topo/%s" % k]
         if o["report"] != rep:
             bad("write_topology_report:report", "report differs between top_trees values", None)
@@ -180,11 +180,30 @@ def run(ctx):
         chains = {c: [(ctx.rng.choice([-1, -2, -3, -4, -5]), ctx.rng.choice(pool), (ctx.rng.choice(["plain", "perm", "relabel"]), ctx.rng.randrange(10**6))) for _ in range(ctx.rng.randint(1, 2))] for c in range(n_chains)}
         if wi % 3 == 0:
             chains[ctx.rng.randrange(n_chains)] = [(ctx.rng.choice([-1, -2, -3]), ctx.rng.choice(pool), ("perm", ctx.rng.randrange(10**6))) for _ in range(ctx.rng.randint(260, 300) if wi == 0 else 40)]
+        if wi % 2 == 1:
+            # scores of large magnitude that differ in the last digits (log densities of data sets with thousands of mutations):
+            # "is larger" must not be decided up to a relative tolerance
+            base_sc = -ctx.rng.choice([200000000, 73000000, 9100000])
+            chains = {c: [(base_sc - ctx.rng.randint(0, 6), sp, var) for (_, sp, var) in v] for c, v in chains.items()}
         for _ in range(2):
             order = list(chains)
             ctx.rng.shuffle(order)
             jobs.append({"n_points": 3, "n_samples": 2, "chains": chains, "order": list(order), "cmds": cmds})
             meta.append((n_traces + wi, chains, tuple(order)))
+    # many distinct topologies (more than ten: ranks / ids of different digit counts) with cut-offs between 3 and the number of
+    # topologies for the archive
+    cmds_many = [("map", "joint-likelihood"), ("map", "frequency"), ("topo", 3), ("topo", 5), ("topo", 11), ("topo", "all")]
+    for mi in range(3 if ctx.quick else 20):
+        pool = ctx.rng.sample(specs, ctx.rng.randint(12, 16))
+        scs = ctx.rng.sample(range(-60, -1), len(pool))
+        ents = [(scs[j], sp, (ctx.rng.choice(["plain", "perm", "relabel"]), ctx.rng.randrange(10**6))) for j, sp in enumerate(pool)]
+        ents += [(scs[j] - 1, pool[j], ("perm", ctx.rng.randrange(10**6))) for j in ctx.rng.sample(range(len(pool)), 4)]
+        ctx.rng.shuffle(ents)
+        cut = ctx.rng.randint(3, len(ents) - 3)
+        chains = {0: ents[:cut], 1: ents[cut:]}
+        order = ctx.rng.choice([[0, 1], [1, 0]])
+        jobs.append({"n_points": 3, "n_samples": 2, "chains": chains, "order": list(order), "cmds": cmds_many})
+        meta.append((n_traces + 1000 + mi, chains, tuple(order)))
     ctx.log("%d trace files (%d base traces)" % (len(jobs), n_traces))
     outs = tf.run_jobs(jobs, workers=4)
     ctx.log("commands done")
